@@ -67,6 +67,7 @@ EXPECT = [
     ('reject an XFER_REFUSE for a transfer that is queued but has not been started', ['C17']),
     ('let Agent.shutdown() deal with contacts that are already ending', ['C09']),
     ('remove received Previous Node and Bundle Age blocks by type code', ['C11']),
+    ('do not let our own keepalives postpone the close', ['C14']),
 ]
 
 
